@@ -25,6 +25,12 @@ def two(tier):
     return [B, D] if tier == 'quick' else extract.all_configs()
 
 
+def three(tier):
+    """baseline, assertion-enabled, and statistics compiled out: a statement that slips inside an `#ifdef UNODB_DETAIL_WITH_STATS`
+    block vanishes from the third configuration only"""
+    return [B, D, extract.flip(B, 'nostats')] if tier == 'quick' else extract.all_configs()
+
+
 def one(tier):
     return [B] if tier == 'quick' else [B, D]
 
@@ -193,7 +199,7 @@ def simd_axis_sse(ctx, tier, olc_only=False, fns=None):
 
 PROPERTIES['C01'] = {
     'level': 'other',
-    'configs': two,
+    'configs': three,
     'multi_rules': [R(lambda ctx, tier: simd_axis_sse(ctx, tier, fns=(slot.slot1, find.find1, lambda cfg: find.ord1(cfg, mode='range'))))],
     'rules': [R(point.noeff1), R(point.keyeq1), R(point.leaf1), R(point.leaf2), R(point.leaf3), R(point.root1), R(point.split1), R(point.pair1), R(point.copy1), R(lambda cfg: point.desc1(cfg, which='point')), R(find.find1), ORD_RANGE, R(slot.slot1), R(prefix.pfx1), R(prefix.pfx2), R(prefix.pfx3), R(prefix.pfx4), R(lambda cfg: point.type1(cfg, which='point')), R(lambda cfg: nodes.mut1(cfg, parts=('count', 'clear'))), R(nodes.idx1), R(mutex.mx2), R(mutex.mx6),
               R(qsbr.q_free_paths), R(qsbr.q_rotation), R(qsbr.q_barriers), R(lambda cfg: qsbr.q_orphans(cfg, parts=('7', '9'))), R(qsbr.q_tagging), R(qsbr.q_last_out), R(qsbr.q_register_epoch), R(qsbr.q_wrap), R(qstate.qs1), R(qsbr.q_cas),
@@ -214,7 +220,7 @@ PROPERTIES['C01'] = {
 }
 PROPERTIES['C02'] = {
     'level': 'other',
-    'configs': two,
+    'configs': three,
     'multi_rules': [R(lambda ctx, tier: simd_axis_sse(ctx, tier, fns=(find.ord1,)))],
     'rules': [R(seq.cmp1), R(enc.cmp_shape), R(seq.cmp3), R(seq.iter1), R(enum1.enum1), R(iterrules.iter2), R(iterrules.iter3), R(iterrules.iter4), R(iterrules.iter5), R(lambda cfg: point.desc1(cfg, which='seek')), R(iterrules.vis1), R(iterrules.stack1), R(iterrules.iter6), R(find.ord1), R(point.pair1), R(lambda cfg: point.type1(cfg, which='scan')), R(lambda cfg: enc.enc6(cfg, classes=KEYBUF)), R(lambda cfg: enc.enc7(cfg, classes=KEYBUF)), advisory(R(iterrules.sib1))],
     'technique': 'static analysis: forward dataflow over event-CFGs (comparator operands, sibling-step consistency), scan-descriptor extraction per node-class enumeration method compared with a semantics table, must-pass-through rule for the fall-off branch of seek, path-class differencing of the db and olc_db iterators',
@@ -264,7 +270,7 @@ def simd_axis(ctx, tier):
 
 PROPERTIES['C03'] = {
     'level': 'other',
-    'configs': two,
+    'configs': three,
     'multi_rules': [R(lambda ctx, tier: simd_axis_sse(ctx, tier, olc_only=True, fns=(slot.slot1, find.find1, lambda cfg: find.ord1(cfg, mode='range'))))],
     'rules': [scoped(olc('LOCK-1'), _olc_point_roots, POINT), scoped(olc('LOCK-2'), _olc_point_roots, POINT), scoped(olc('LOCK-3'), _olc_point_roots, POINT), scoped(olc('LOCK-5'), _olc_point_roots, POINT),
               scoped(olc('LOCK-9'), _olc_point_roots, POINT), scoped(keep_keys(olc('ROLE'), lambda k: 'source_node_guard' not in k, 'swapped guards of a shrink are harmless in release builds - C16'), _olc_point_roots, POINT), scoped(R(point.lock11), _olc_point_roots, POINT), scoped(R(couple.lock12), _olc_point_roots, POINT), scoped(R(couple.lock13), _olc_point_roots, POINT),
@@ -281,7 +287,7 @@ PROPERTIES['C03'] = {
 }
 PROPERTIES['C04'] = {
     'level': 'other',
-    'configs': two,
+    'configs': three,
     'rules': [keep_keys(olc('LOCK-1'), lambda k: k.startswith(('LOCK-1a', 'LOCK-1c')), 'a result returned without validation is a wrong answer - C03 / C09 - not a use of reclaimed memory'), olc('LOCK-5'), R(olcrules.lock6), R(olcrules.lock6b),
               R(qsbr.q_free_paths), R(qsbr.q_rotation), R(qsbr.q_barriers), R(lambda cfg: qsbr.q_orphans(cfg, parts=('7', '9'))), R(qsbr.q_tagging), R(qsbr.q_last_out), R(qsbr.q_register_epoch), R(qsbr.q_wrap), R(qstate.qs1),
               R(lambda cfg: qsbr.q_rotation(cfg, parts=('3',))), R(qsbr.q_cas), R(lambda cfg: qsbr.q_orphans(cfg, parts=('8',))), R(qsbr.q_tail_link), R(qsbr.q_sink), R(qsbr.q_list_rmw), keep_keys(R(acc.acc4), lambda k: k.startswith(('ACC-4:loop', 'ACC-4:delete_root')), 'which counters clear() resets is C10'), scoped(R(exc.exc1), _qsbr_roots, 'QSBR thread start / resume / deferred-deallocation request'), R(ptr.ptr3), keep_keys(R(point.lock11), lambda k: 'retry-in-place' not in k, 'a retry in place is a hang - C14 / C09 - not a use of reclaimed memory'), olc_side(R(lambda cfg: nodes.mut1(cfg, parts=('reclaim',))))],
@@ -294,7 +300,7 @@ PROPERTIES['C04'] = {
 }
 PROPERTIES['C09'] = {
     'level': 'other',
-    'configs': two,
+    'configs': three,
     'rules': [scoped(olc('LOCK-1'), _olc_scan_roots, SCAN), scoped(olc('LOCK-7'), _olc_scan_roots, SCAN), scoped(olc('LOCK-8'), _olc_scan_roots, SCAN), scoped(olc('LOCK-9'), _olc_scan_roots, SCAN), scoped(keep_keys(olc('ROLE'), lambda k: 'source_node_guard' not in k, 'swapped guards of a shrink are harmless in release builds - C16'), _olc_scan_roots, SCAN),
               scoped(R(seq.iter1), _olc_scan_roots, SCAN), scoped(R(iterrules.reseek), _olc_scan_roots, SCAN), scoped(R(iterrules.iter3), _olc_scan_roots, SCAN), scoped(R(iterrules.iter4), _olc_scan_roots, SCAN), scoped(R(iterrules.iter5), _olc_scan_roots, SCAN), scoped(R(point.lock11), _olc_scan_roots, SCAN), scoped(R(couple.lock12), _olc_scan_roots, SCAN), scoped(R(couple.lock13), _olc_scan_roots, SCAN), R(lambda cfg: enc.enc6(cfg, classes=KEYBUF)), R(lambda cfg: enc.enc7(cfg, classes=KEYBUF)),
               R(lockword.lw)] + [olc_side(r_) for r_ in SEQ_SCAN],
@@ -307,7 +313,7 @@ PROPERTIES['C09'] = {
 }
 PROPERTIES['C14'] = {
     'level': 'other',
-    'configs': two,
+    'configs': three,
     'rules': [olc('LOCK-3'), olc('LOCK-4'), olc('LOCK-7'), R(lock7a), keep_keys(R(lockword.lw6), lambda k: k.startswith('LW-6:upgrade'), 'a unit given back twice or never taken makes an assertion fire - C16 - but leaves no node read-locked'), R(point.lock10), keep_keys(R(point.lock11), lambda k: 'retry-in-place' in k, 'a definitive answer after a failed lock step is a wrong result - C03 / C09 - not a hang'), R(lock2_obsoleting), lw_parts(('LW-1:dtor', 'LW-1:deactivate', 'LW-1:op', 'LW-1:store-value', 'LW-1:cas-desired', 'LW-1:caller:unodb::optimistic_lock::atomic_version_type::cas_acquire', 'LW-1:caller:unodb::optimistic_lock::try_upgrade', 'LW-1:caller:unodb::optimistic_lock::write_guard::try_lock_upgrade', 'LW-2', 'LW-3', 'LW-7:unlock|', 'LW-7:write_unlock|', 'LW-7:store:write_unlock|', 'LW-7:try_lock_upgrade', 'LW-7:try_upgrade', 'LW-10'), 'memory orders, whole-word comparison, section snapshots and a missing obsoletion concern linearizability - C03 / C07 - not lock release or waiting')],
     'technique': 'static analysis: relational typestate dataflow for lock order / no-wait-while-locked / guard typestate on every CFG path incl. exceptional exits of scope guards; path-sensitive effect flow (obsoletion followed by a restart result)',
     'explanation': 'No-deadlock / no-lock-left-held conditions: LOCK-3 (write ownership is only taken by non-blocking upgrade in root-to-leaf order and no waiting primitive - try_read_lock spin, spin_wait_loop_body - is reached while a guard is active, '
@@ -318,14 +324,14 @@ PROPERTIES['C14'] = {
 PROPERTIES['C16'] = {
     'level': 'other',
     'configs': two,
-    'rules': [R(lock7a), olc('LOCK-7'), olc('ROLE'), R(ptr.ptr2), R(cfgdiff.assert_range), R(lockword.lw6)],
+    'rules': [R(lock7a), olc('LOCK-7'), olc('ROLE'), R(ptr.ptr2), R(cfgdiff.assert_range), R(cfgdiff.assert_optimistic), R(lockword.lw6)],
     'technique': 'static analysis: configuration differencing (statement-signature alignment of every function across single-axis flips of the build configuration with an effect classifier), API-surface differencing, typestate dataflow for read-section overwrite',
     'multi_rules': [R(cfgdiff.run_matrix), R(simd_axis)],
     'exhaustive': lambda tier: tier == 'thorough',
     'explanation': 'CD-1: for every single-axis flip of the build configuration (statistics on/off, assertions on/off, spin variant; quick: the baseline against its flips, thorough: all 16 configurations against theirs, exhaustively) the statement signatures of every function instantiated in both configurations are aligned in source order; every statement that exists on one side only must be part of a side-effect-free assertion, '
                    'touch only state that exists only in that configuration (set difference of the field / static / function tables), be a pure read, or be control flow listed in the exception table (one symbol + reason each) - a return, throw, shared-state write or mutating call that exists in one configuration only is a violation. CD-2: the public API of the index classes, encoder/decoder and pointer wrappers is identical across configurations except statistics getters. '
                    'SIMD axis: the vectorised searches (SLOT-1 first null slot of the I48 pointer array - SSE4.2 packs vs AVX2 packs + cross-lane permutes; FIND-1 / ORD-1 child lookup and insert position of I4 / I16) are evaluated lane-wise against ONE specification in the AVX2 and in the SSE4.2 configuration; meeting it in both is what makes the builds agree. '
-                   'PTR-2 (assertion-enabled configurations): the per-thread registry of live qsbr_ptr values is exact - every member function that changes the wrapped address unregisters the old value before and registers the new one after, on every path - so the three rejection assertions fire only when a wrapper is really alive (that they exist at all is C17, PTR-4: a missing assertion does not make a legal run abort): a stale registration makes the next legal quiescent state abort. LW-6 (assertion-enabled configurations): a read section clears its lock pointer on exactly the paths on which the lock-level call gave its read_lock_count unit back (check: on failure; try_read_unlock: always - conditions read off the lock code itself), so the unit is never given back twice. ASSERT-1 (assertion-enabled configurations): a debug-only counter compared with a narrower stored count cannot outgrow it (loop trip count capped by the node capacity <= 2^w - 1; a full I256 has 256 children and an 8-bit count). '
+                   'PTR-2 (assertion-enabled configurations): the per-thread registry of live qsbr_ptr values is exact - every member function that changes the wrapped address unregisters the old value before and registers the new one after, on every path - so the three rejection assertions fire only when a wrapper is really alive (that they exist at all is C17, PTR-4: a missing assertion does not make a legal run abort): a stale registration makes the next legal quiescent state abort. LW-6 (assertion-enabled configurations): a read section clears its lock pointer on exactly the paths on which the lock-level call gave its read_lock_count unit back (check: on failure; try_read_unlock: always - conditions read off the lock code itself), so the unit is never given back twice. ASSERT-2 (assertion-enabled configurations): the copying node constructors of the OLC index - they build the larger / smaller replacement before the write guards are taken, from a node that is only read-locked - assert nothing about their source node (unvalidated optimistic reads: an assertion on them aborts a legal interleaving that the release build resolves by a failed upgrade and a restart). ASSERT-1 (assertion-enabled configurations): a debug-only counter compared with a narrower stored count cannot outgrow it (loop trip count capped by the node capacity <= 2^w - 1; a full I256 has 256 children and an 8-bit count). '
                    'LOCK-7b / ROLE: a read section is not used after it has been ended or handed to a callee that consumes it, and helpers receive the section their node argument was read under - in release builds a consumed section still carries its lock pointer and the slip goes unnoticed, in assertion-enabled builds the pointer is null and the next use crashes: behaviour would depend on the configuration. '
                    'LOCK-7a: in no function of the OLC code is a read section that may still be open overwritten by assignment. An overwritten open section loses its unit of the debug-build read_lock_count, which optimistic_lock::check_on_dealloc '
                    'asserts to be zero when the node is freed - the one internal assertion that legal usage (scan, then remove) could trip.',
@@ -459,13 +465,15 @@ PROPERTIES['C08'] = {
 PROPERTIES['C10'] = {
     'level': 'other',
     'configs': lambda tier: [B, D] if tier == 'quick' else [c for c in extract.all_configs() if '-stats-' in c],
-    'rules': [R(acc.acc1), R(acc.acc2), R(acc.acc4), R(acc.acc5), R(acc.acc6), R(acc.own1), R(exc.exc2), R(lambda cfg: nodes.mut1(cfg, parts=('count', 'reclaim', 'foreach'))), R(acc.acc7), R(olcrules.lock6b)],
+    'rules': [R(acc.acc1), R(acc.acc2), R(acc.acc4), R(acc.acc5), R(acc.acc6), R(acc.own1), R(exc.exc2), R(lambda cfg: nodes.mut1(cfg, parts=('count', 'reclaim', 'foreach'))), R(acc.acc7), R(olcrules.lock6b), R(slot.slot1),
+              R(lambda cfg: qsbr.q_rotation(cfg, parts=('3',))), R(lambda cfg: qsbr.q_orphans(cfg, parts=('7', '8'))), R(qsbr.q_tail_link), R(qsbr.q_sink), R(qsbr.q_list_rmw)],
+    'multi_rules': [R(lambda ctx, tier: simd_axis_sse(ctx, tier, fns=(slot.slot1,)))],
     'technique': 'static analysis: constant-chain and decision-expression rules on the size classes, counter who-may-write discipline, per-path create/account matching, loop-bound descriptors of subtree deletion, ownership linearity dataflow',
     'explanation': 'The local generators of "shape, statistics and memory accounting are functions of the key set", for db and olc_db, both key kinds: '
                    'ACC-1 the size-class constants form the chain 2-4 / 5-16 / 17-48 / 49-256, a node grows exactly when its count equals the capacity of ITS OWN class into the NEXT class, shrinks exactly at the minimum size of its own class into the PREVIOUS class, a two-child node collapses, splits create I4; '
                    'ACC-2 the growth / shrink counters are written only by account_growing_inode / account_shrinking_inode and only incremented, and along every non-restart path of every helper instantiation the nodes created-and-published equal the growth accounted for (class by class), a dissolved node is accounted as shrunk exactly once, key_prefix_splits moves only in the inserts; '
                    'ACC-4 clear() / destruction delete the whole subtree of a non-null root - every child slot of every node class (loop bounds: children_count for the dense classes, 48 resp. 256 slots for the indexed ones) - then reset root, memory use and the per-class counters; '
-                   'ACC-6 every decrement (inode count per class, leaf count, memory use) is the exact mirror image of its increment - same slot, same amount - and the slots of the five node classes are distinct; ACC-5 olc_db counters are updated by one atomic read-modify-write, never by a store computed from a load of the same counter; OWN-1 a node pointer released from its unique_ptr is published or re-owned on every path to every return (restart returns included), so nothing stays allocated and counted without being in the tree; EXC-2 allocation and accounting move together in factories and deleters; ACC-7 the per-class template accessors use the slot of their own class (node_counts[T], growing / shrinking_inode_counts[T - 1]), getters and account_* alike; LOCK-6b the reclaiming deleters of olc_db hand QSBR the node they were given with the size of its class (sizeof of the node class, not of a pointer; the leaf size read before the hand-over) - the deferred-reclamation backlog is what makes "bytes held = reported use + awaiting reclamation" true; MUT-1 the per-class mutators keep children_count exact (add: + 1, remove: - 1, stored once on every path - the grow / shrink thresholds of ACC-1 are read from it), remove hands the removed leaf to reclamation exactly once (the slot named by its index parameter; I48 through its pointer helpers), I256::for_each_child - the teardown walk - calls its callback.',
+                   'ACC-6 every decrement (inode count per class, leaf count, memory use) is the exact mirror image of its increment - same slot, same amount - and the slots of the five node classes are distinct; ACC-5 olc_db counters are updated by one atomic read-modify-write, never by a store computed from a load of the same counter; OWN-1 a node pointer released from its unique_ptr is published or re-owned on every path to every return (restart returns included), so nothing stays allocated and counted without being in the tree; EXC-2 allocation and accounting move together in factories and deleters; SLOT-1 an I48 really holds 48 children in the AVX2 and in the SSE4.2 build (the free-slot search finds the first null slot for every occupancy; a search that never sees some slots free makes the node overflow its array instead of growing at 48); the exactly-once rules of C06 (Q-3, Q-7, Q-8, Q-13, Q-15/16, Q-19) - memory retired by olc_db threads that have since left is what \"awaits deferred reclamation\", and it is all returned only if no orphaned request is dropped; ACC-7 the per-class template accessors use the slot of their own class (node_counts[T], growing / shrinking_inode_counts[T - 1]), getters and account_* alike; LOCK-6b the reclaiming deleters of olc_db hand QSBR the node they were given with the size of its class (sizeof of the node class, not of a pointer; the leaf size read before the hand-over) - the deferred-reclamation backlog is what makes "bytes held = reported use + awaiting reclamation" true; MUT-1 the per-class mutators keep children_count exact (add: + 1, remove: - 1, stored once on every path - the grow / shrink thresholds of ACC-1 are read from it), remove hands the removed leaf to reclamation exactly once (the slot named by its index parameter; I48 through its pointer helpers), I256::for_each_child - the teardown walk - calls its callback.',
     'decides': 'grow / shrink / collapse thresholds and target classes; counter discipline; completeness of subtree deletion; no leak of released nodes; allocation <-> accounting pairing',
     'does_not_decide': 'history independence of the shape as a theorem over all operation histories (it decides the local rules that generate it)',
 }
